@@ -17,11 +17,9 @@ Fixpoint digest_of (t : dtable) (i c k : N) : N :=
   | (i', c', k', d) :: r => if (i =? i') && (c =? c') && (k =? k') then d else digest_of r i c k
   end.
 
-(** A case: which Deploy the implementation under test follows (decided by the driver from the
-    witness scenario; only [agree] uses it), the digest table, the initial Package spec, the steps
-    with the stage outcomes the scenario was built to produce, and what the implementation did in
-    every pass. *)
-Definition case := (bool * dtable * spec * list step * list obs)%type.
+(** A case: the digest table, the initial Package spec, the steps with the stage outcomes the
+    scenario was built to produce, and what the implementation did in every pass. *)
+Definition case := (dtable * spec * list step * list obs)%type.
 
 (** The request log of the implementation does not tell the controller's pause propagation from
     the deployment reconciler's update: both are "update ObjectDeployment". *)
@@ -40,7 +38,7 @@ Definition rkind_eqb (a b : rkind) : bool :=
   end.
 
 Definition rout_eqb (a b : rout) : bool :=
-  match a, b with OOk, OOk | ONotFound, ONotFound | OFault, OFault => true | _, _ => false end.
+  match a, b with OOk, OOk | ONotFound, ONotFound | OConflict, OConflict | OFault, OFault => true | _, _ => false end.
 
 Definition ev_eqb (a b : ev) : bool :=
   match a, b with
@@ -63,13 +61,17 @@ Definition obs_eqb (a b : obs) : bool :=
   && list_eqb cond_eqb (ob_conds a) (ob_conds b) && option_eqb od_eqb (ob_od a) (ob_od b)
   && (ob_pulls a =? ob_pulls b).
 
-Definition model_obs (fixed : bool) (t : dtable) (sp : spec) (steps : list step) : list obs :=
-  map norm_obs (run (digest_of t) fixed steps (init_world sp) []).
+Definition model_obs_gen (fixed : bool) (t : dtable) (sp : spec) (steps : list step) : list obs :=
+  map norm_obs (run (digest_of t) fixed steps (init_world sp) [] []).
+(** the code as it is *)
+Definition model_obs := model_obs_gen true.
+(** the code before cb58cda *)
+Definition model_obs_v0 := model_obs_gen false.
 
 (** Model and implementation made the same requests with the same outcomes, pulled and entered
     Deploy at the same points, and left the same Package status and ObjectDeployment, pass by pass. *)
 Definition agree (c : case) : bool :=
-  let '(fixed, t, sp, steps, obss) := c in list_eqb obs_eqb (model_obs fixed t sp steps) obss.
+  let '(t, sp, steps, obss) := c in list_eqb obs_eqb (model_obs t sp steps) obss.
 
 (** ** The monitor: the property on the implementation's observations only *)
 
@@ -121,7 +123,7 @@ Definition verdict_all (a : verdict) : bool :=
 Definition good_after (dg : N -> N -> N -> N) (v : view) (o : oracle) : list N :=
   v_good v ++ (if all_ok o then [spec_digest dg (v_spec v)] else []).
 
-(** [armed]: the scenario injects an API fault into this pass.  A condition has to be persisted by
+(** [armed]: the scenario injects an API fault or a third-party write into this pass.  A condition has to be persisted by
     every error-free pass, and a pass without injected fault has to be error free as far as pull
     failures, load failures and unmet constraints are concerned. *)
 Definition mon_pass (dg : N -> N -> N -> N) (v : view) (o : oracle) (armed : bool) (b : obs) : verdict :=
@@ -161,6 +163,7 @@ Fixpoint mon (dg : N -> N -> N -> N) (v : view) (armed : bool) (steps : list ste
   | SEdit sp :: r =>
       mon dg {| v_spec := sp; v_hash := v_hash v; v_od := v_od v; v_good := v_good v; v_done := v_done v |} armed r obss
   | SFault _ _ :: r => mon dg v true r obss
+  | SDisturb _ :: r => mon dg v true r obss
   | SPass o :: r =>
       match obss with
       | [] => verdict_true   (* a missing observation is a correspondence failure, not a property violation *)
@@ -172,7 +175,7 @@ Definition init_view (sp : spec) : view :=
   {| v_spec := sp; v_hash := None; v_od := None; v_good := []; v_done := None |}.
 
 Definition monitor (c : case) : verdict :=
-  let '(_, t, sp, steps, obss) := c in mon (digest_of t) (init_view sp) false steps obss.
+  let '(t, sp, steps, obss) := c in mon (digest_of t) (init_view sp) false steps obss.
 
 Definition judge (c : case) : bool * (bool * bool * bool * bool * bool * bool * bool * bool) :=
   let m := monitor c in
@@ -216,17 +219,17 @@ Section Sound.
     now rewrite andb_true_r.
   Qed.
 
-  Lemma mon_pass_sound o w f v armed :
-    covered o -> consistent v w -> od_okb (v_good v) w = true -> (armed = false -> f = []) ->
-    let r := do_pass dg fixed o w f in
+  Lemma mon_pass_sound o w f d v armed :
+    covered o -> consistent v w -> od_okb (v_good v) w = true -> (armed = false -> f = [] /\ d = []) ->
+    let r := do_pass dg fixed o w f d in
     verdict_all (mon_pass dg v o armed (norm_obs (obs_of r))) = true /\
     consistent (view_after dg v o (norm_obs (obs_of r))) (st_w (r_st r)) /\
     od_okb (good_after dg v o) (st_w (r_st r)) = true.
   Proof.
     intros Hcov (Hsp & Hh & Hod & Hdone) Hgood Harm r.
-    set (s := {| st_w := w; st_f := f; st_log := [] |}).
-    assert (Hnf : armed = false -> st_f s = []) by (intros Ha; cbn; now apply Harm).
-    assert (Hr : r = pass dg fixed o s) by reflexivity.
+    set (s := {| st_w := w; st_f := f; st_d := d; st_dirty := false; st_log := [] |}).
+    assert (Hnf : armed = false -> calm s) by (intros Ha; destruct (Harm Ha) as [-> ->]; repeat split).
+    assert (Hr : r = pass_gen dg fixed o s) by reflexivity.
     assert (Hdep := covered_deployable o Hcov).
     (* history clause and new invariant *)
     assert (Hhist : od_okb (good_after dg v o) (st_w (r_st r)) = true).
@@ -241,7 +244,7 @@ Section Sound.
         - (* what the scenario knows to be processed is what the status says *)
           intros x. unfold done_after. cbn.
           destruct (r_err r) eqn:Ee; [discriminate|].
-          pose proof (pass_hash_ok dg fixed o s Ee) as Hph. unfold stored_pkg, pass in Hph. cbn in Hph.
+          pose proof (pass_hash_ok dg fixed o s Ee) as Hph. unfold stored_pkg, pass_gen in Hph. cbn in Hph.
           unfold r, do_pass. fold s. rewrite Hph. rewrite Hsp.
           destruct (s_paused (p_spec (w_pkg w))); [apply Hdone|].
           destruct (hash_eqb (v_done v) (p_spec (w_pkg w))) eqn:Ed.
@@ -256,7 +259,7 @@ Section Sound.
     assert (Hsame : all_ok o = false -> od_changed (v_od v) (ob_od (norm_obs (obs_of r))) = false).
     { intros Hno. rewrite <- Hdep in Hno. destruct (not_deployable_no_deploy dg fixed o s Hno) as (l & _ & _ & Ht).
       unfold od_changed, norm_obs, obs_of. cbn. rewrite Hod. fold s. unfold tmpl_of.
-      unfold od_tmpl, pass in Ht. unfold r, do_pass. fold s. rewrite Ht. now rewrite option_tmpl_eqb_refl. }
+      unfold od_tmpl, pass_gen in Ht. unfold r, do_pass. fold s. rewrite Ht. now rewrite option_tmpl_eqb_refl. }
     assert (Hall : forall b, b = false -> all_ok o = true -> b = true -> False) by (intros; congruence).
     unfold verdict_all, mon_pass. cbn [m_pull m_load m_cons m_cfg m_valid m_unch m_tmpl m_hist].
     rewrite !andb_true_iff. repeat split.
@@ -266,12 +269,12 @@ Section Sound.
       destruct (negb (s_paused (v_spec v)) && negb (hash_eqb (v_hash v) (v_spec v)) && (negb (ob_err (norm_obs (obs_of r))) || negb armed)) eqn:E; [|reflexivity].
       cbn [implb]. rewrite !andb_true_iff in E. destruct E as [[E1 E2] E3].
       assert (Hreach : reach (w_pkg w) = true) by (unfold reach; rewrite <- Hsp, <- Hh; now rewrite E1, E2).
-      assert (E3' : r_err (pass dg fixed o s) = false).
+      assert (E3' : r_err (pass_gen dg fixed o s) = false).
       { apply orb_true_iff in E3. destruct E3 as [E3|E3]; apply negb_true_iff in E3; [exact E3|].
         now apply nofault_pull_failure; [apply Hnf| |]. }
       clear E3. rename E3' into E3.
       destruct (pull_failure_condition dg fixed o s Hreach Ep E3) as (_ & Hc & _ & Hrq).
-      cbn. unfold stored_pkg, pass in Hc, Hrq. unfold r, do_pass. fold s. rewrite Hrq, andb_true_r.
+      cbn. unfold stored_pkg, pass_gen in Hc, Hrq. unfold r, do_pass. fold s. rewrite Hrq, andb_true_r.
       now apply has_shows in Hc.
     - (* load *)
       destruct (o_load o) eqn:El; [reflexivity|]. cbn [negb implb].
@@ -279,12 +282,12 @@ Section Sound.
       destruct (negb (s_paused (v_spec v)) && negb (hash_eqb (v_hash v) (v_spec v)) && (negb (ob_err (norm_obs (obs_of r))) || negb armed) && o_pull o) eqn:E; [|reflexivity].
       cbn [implb]. rewrite !andb_true_iff in E. destruct E as [[[E1 E2] E3] E4].
       assert (Hreach : reach (w_pkg w) = true) by (unfold reach; rewrite <- Hsp, <- Hh; now rewrite E1, E2).
-      assert (E3' : r_err (pass dg fixed o s) = false).
+      assert (E3' : r_err (pass_gen dg fixed o s) = false).
       { apply orb_true_iff in E3. destruct E3 as [E3|E3]; apply negb_true_iff in E3; [exact E3|].
         now apply nofault_load_failure; [apply Hnf| | |]. }
       clear E3. rename E3' into E3.
       destruct (load_failure_condition dg fixed o s Hreach E4 El E3) as (_ & Hc & _).
-      cbn. unfold stored_pkg, pass in Hc. unfold r, do_pass. fold s. now apply has_shows in Hc.
+      cbn. unfold stored_pkg, pass_gen in Hc. unfold r, do_pass. fold s. now apply has_shows in Hc.
     - (* constraints *)
       destruct (unmet o) eqn:Eu; [|reflexivity]. cbn [implb].
       rewrite Hsame by (unfold all_ok; rewrite Eu; now rewrite andb_false_r). cbn [negb andb].
@@ -292,13 +295,13 @@ Section Sound.
       cbn [implb]. rewrite !andb_true_iff in E. destruct E as [[[[E1 E2] E3] E4] E5].
       assert (Hreach : reach (w_pkg w) = true) by (unfold reach; rewrite <- Hsp, <- Hh; now rewrite E1, E2).
       destruct Hcov as [Hfx|Hfx]; [|congruence]. subst fixed.
-      assert (E3' : r_err (pass dg true o s) = false).
+      assert (E3' : r_err (pass_gen dg true o s) = false).
       { apply orb_true_iff in E3. destruct E3 as [E3|E3]; [now apply negb_true_iff in E3|].
         apply andb_true_iff in E3. destruct E3 as [Ea Ec]. apply negb_true_iff in Ea, Ec.
         now apply nofault_unmet; [apply Hnf| | | | |]. }
       clear E3. rename E3' into E3.
       destruct (constraints_failure_condition dg o s Hreach E4 E5 Eu E3) as (_ & Hc & _).
-      cbn. unfold stored_pkg, pass in Hc. unfold r, do_pass. fold s. now apply has_shows in Hc.
+      cbn. unfold stored_pkg, pass_gen in Hc. unfold r, do_pass. fold s. now apply has_shows in Hc.
     - (* config *)
       destruct (config_ok o) eqn:Ec; [reflexivity|]. cbn [negb implb].
       rewrite Hsame; [reflexivity|]. unfold all_ok, stages_ok. rewrite Ec.
@@ -316,18 +319,18 @@ Section Sound.
         rewrite (Hdone x eq_refl). cbn. now rewrite <- Hsp. }
       destruct (unchanged_no_pull dg fixed o s Hh') as (l & Hl & Hb & Ht).
       apply andb_true_iff. split.
-      + unfold norm_obs, obs_of. cbn [ob_events]. rewrite none_of_norm. unfold new_events, pass in Hl. cbn in Hl. unfold r, do_pass. fold s. rewrite Hl.
+      + unfold norm_obs, obs_of. cbn [ob_events]. rewrite none_of_norm. unfold new_events, pass_gen in Hl. cbn in Hl. unfold r, do_pass. fold s. rewrite Hl.
         revert Hb. apply none_of_weaken. intros e He. unfold busy. unfold pull_or_deploy in He.
         apply orb_true_iff in He. destruct He as [He|He]; rewrite He; [now rewrite orb_true_r|now rewrite !orb_true_r].
       + unfold od_changed, norm_obs, obs_of. cbn. rewrite Hod. unfold tmpl_of.
-        unfold od_tmpl, pass in Ht. cbn in Ht. unfold r, do_pass. fold s. rewrite Ht. now rewrite option_tmpl_eqb_refl.
+        unfold od_tmpl, pass_gen in Ht. cbn in Ht. unfold r, do_pass. fold s. rewrite Ht. now rewrite option_tmpl_eqb_refl.
     - (* template *)
       destruct (negb (s_paused (v_spec v)) && negb (hash_eqb (v_hash v) (v_spec v)) && negb (ob_err (norm_obs (obs_of r))) && all_ok o) eqn:E; [|reflexivity].
       cbn [implb]. rewrite !andb_true_iff in E. destruct E as [[[E1 E2] E3] E4].
       assert (Hreach : reach (w_pkg w) = true) by (unfold reach; rewrite <- Hsp, <- Hh; now rewrite E1, E2).
       apply negb_true_iff in E3. cbn in E3. rewrite <- Hdep in E4.
       destruct (changed_template dg fixed o s Hreach E4 E3) as (Ht & _).
-      cbn. unfold od_tmpl, pass in Ht. unfold tmpl_of, r, do_pass. fold s. rewrite Ht. cbn. rewrite Hsp.
+      cbn. unfold od_tmpl, pass_gen in Ht. unfold tmpl_of, r, do_pass. fold s. rewrite Ht. cbn. rewrite Hsp.
       apply N.eqb_refl.
     - (* history *)
       unfold od_okb, od_tmpl in Hhist. unfold tmpl_okb, tmpl_of. cbn. exact Hhist.
@@ -345,60 +348,40 @@ Section Sound.
     unfold verdict_all, verdict_and. cbn. rewrite !andb_true_iff. intuition.
   Qed.
 
-  Lemma mon_sound steps : forall w f v armed,
-    all_covered steps -> consistent v w -> od_okb (v_good v) w = true -> (armed = false -> f = []) ->
-    verdict_all (mon dg v armed steps (map norm_obs (run dg fixed steps w f))) = true.
+  Lemma mon_sound steps : forall w f d v armed,
+    all_covered steps -> consistent v w -> od_okb (v_good v) w = true -> (armed = false -> f = [] /\ d = []) ->
+    verdict_all (mon dg v armed steps (map norm_obs (run dg fixed steps w f d))) = true.
   Proof.
-    induction steps as [|x steps IH]; intros w f v armed Hcov Hcons Hgood Harm; cbn; [reflexivity|].
-    destruct x as [sp|n k|o].
+    induction steps as [|x steps IH]; intros w f d v armed Hcov Hcons Hgood Harm; cbn; [reflexivity|].
+    destruct x as [sp|n k|n|o].
     - apply IH; [exact Hcov| | |exact Harm].
       + destruct Hcons as (Hsp & Hh & Hod & Hdone). unfold consistent, edit. cbn.
         destruct (spec_eqb sp (p_spec (w_pkg w))) eqn:E; cbn; [apply spec_eqb_eq in E; subst sp|]; repeat split; assumption.
       + cbn. unfold od_okb, od_tmpl, edit in *. now destruct (spec_eqb sp (p_spec (w_pkg w))).
     - apply IH; try assumption. discriminate.
+    - apply IH; try assumption. discriminate.
     - destruct Hcov as [Hc Hcov]. cbn.
-      destruct (mon_pass_sound o w f v armed Hc Hcons Hgood Harm) as (H1 & H2 & H3).
-      apply verdict_all_and; [exact H1|]. apply IH; try assumption. reflexivity.
+      destruct (mon_pass_sound o w f d v armed Hc Hcons Hgood Harm) as (H1 & H2 & H3).
+      apply verdict_all_and; [exact H1|]. apply IH; try assumption. now split.
   Qed.
 End Sound.
 
-(** The repaired model satisfies the monitor on every history. *)
-Theorem monitor_sound_fixed t sp steps fx :
-  verdict_all (monitor (fx, t, sp, steps, model_obs true t sp steps)) = true.
+(** The model of the code as it is satisfies the monitor on every history: spec edits, API
+    faults, third-party writes, passes with arbitrary stage outcomes. *)
+Theorem monitor_sound t sp steps :
+  verdict_all (monitor (t, sp, steps, model_obs t sp steps)) = true.
 Proof.
-  unfold monitor, model_obs. apply mon_sound.
-  - induction steps as [|[| |o] steps IH]; cbn; auto. split; [now left|assumption].
+  unfold monitor, model_obs, model_obs_gen. apply mon_sound.
+  - induction steps as [|[| | |o] steps IH]; cbn; auto. split; [now left|assumption].
   - repeat split. discriminate.
   - reflexivity.
-  - reflexivity.
+  - now split.
 Qed.
 
-(** no pass of the history has an unmet constraint *)
-Fixpoint constraints_met (steps : list step) : bool :=
-  match steps with
-  | [] => true
-  | SPass o :: r => negb (unmet o) && constraints_met r
-  | _ :: r => constraints_met r
-  end.
+(** The witness of the defect fixed by cb58cda: the monitor rejects what the old Deploy did. *)
+Definition wit_case_v0 : case :=
+  ([(1, 0, 0, 7)], wit_spec, [SPass wit_oracle], model_obs_v0 [(1, 0, 0, 7)] wit_spec [SPass wit_oracle]).
 
-(** The code as it is satisfies the monitor on every history without an unmet constraint. *)
-Theorem monitor_sound_current t sp steps fx :
-  constraints_met steps = true ->
-  verdict_all (monitor (fx, t, sp, steps, model_obs false t sp steps)) = true.
-Proof.
-  intros Hm. unfold monitor, model_obs. apply mon_sound.
-  - induction steps as [|[| |o] steps IH]; cbn in *; auto.
-    apply andb_true_iff in Hm. destruct Hm as [H1 H2]. split; [right; now apply negb_true_iff|auto].
-  - repeat split. discriminate.
-  - reflexivity.
-  - reflexivity.
-Qed.
-
-(** The witness of F-C16, replayed on the real code by checks/C16.py: the monitor rejects what the
-    faithful model does (and the model is what the implementation does: [agree]). *)
-Definition wit_case : case :=
-  (false, [(1, 0, 0, 7)], wit_spec, [SPass wit_oracle],
-   model_obs false [(1, 0, 0, 7)] wit_spec [SPass wit_oracle]).
-
-Lemma wit_case_judged : agree wit_case = true /\ m_cons (monitor wit_case) = false /\ m_hist (monitor wit_case) = false.
+Lemma wit_case_v0_judged :
+  agree wit_case_v0 = false /\ m_cons (monitor wit_case_v0) = false /\ m_hist (monitor wit_case_v0) = false.
 Proof. vm_compute. repeat split. Qed.
